@@ -578,6 +578,25 @@ def snapshot_inputs(rargs, rkwargs, pb, skip_out=False):
                 out[path + ".meta"] = pickle.dumps(v.meta)
             except Exception:
                 out[path + ".meta"] = repr(v.meta)
+            # the object itself: a copy taken before the call has the same instance attributes with the
+            # same values (a getter that stores a derived value on its object changes this)
+            for k in sorted(vars(v)):
+                x = vars(v)[k]
+                if k in ("_data",):
+                    continue
+                if isinstance(x, np.ndarray) and not hasattr(x, "unit"):
+                    val = (x.tobytes(), str(x.dtype), x.shape)
+                elif hasattr(x, "unit") and hasattr(x, "value"):
+                    xv = np.asarray(x.value)
+                    val = (xv.tobytes(), str(xv.dtype), xv.shape, str(x.unit))
+                elif hasattr(x, "jd1"):
+                    val = (repr(x.jd1), repr(x.jd2))
+                else:
+                    try:
+                        val = pickle.dumps(x)
+                    except Exception:
+                        val = repr(x)
+                out[f"{path}.__dict__[{k}]"] = val
         elif isinstance(v, np.ndarray) and not hasattr(v, "unit"):
             out[path] = (v.tobytes(), str(v.dtype), v.shape, v.strides)
         elif hasattr(v, "unit") and hasattr(v, "value"):
@@ -684,8 +703,8 @@ def _differential(interp, contract, inst, nm, pb, tol, real_call, ctx):
     mism = []
     info = {"inputs": {k: str(v) for k, v in nm.used.items()}}
     snap_after = snapshot_inputs(rargs, rkwargs, pb, skip_out=getattr(contract, "sanctioned_out", False))
-    for k in snap_before:
-        if snap_before[k] != snap_after.get(k):
+    for k in sorted(set(snap_before) | set(snap_after)):
+        if snap_before.get(k) != snap_after.get(k):
             mism.append(Mismatch(f"frame.input-mutated[{k}]", "changed by the call", "bit-identical to the copy taken before"))
     if want.kind == "raise" and want.exc.kind == "ANY":
         return {"status": "skip", "why": "input the statement leaves unconstrained", **info}
